@@ -675,13 +675,13 @@ def total_strategy():
 
 
 CLAUSES = [
-    Clause("returns_str_never_raises", c_total, total_strategy(), 4000, 160000,
+    Clause("returns_str_never_raises", c_total, total_strategy(), 4000, 100000,
            doc="(1) totality: every listed object in table mode, 2-D matrices in LaTeX mode"),
-    Clause("prints_exactly_the_returned_string", c_print, total_strategy(), 2500, 100000,
+    Clause("prints_exactly_the_returned_string", c_print, total_strategy(), 2500, 60000,
            doc="(2) captured stdout == returned string + newline, or nothing with noprint"),
-    Clause("table_shows_every_element_rounded", c_table_elements, faithful_requests(0), 5000, 200000,
+    Clause("table_shows_every_element_rounded", c_table_elements, faithful_requests(0), 5000, 120000,
            doc="(3) table mode, arrays of 0..4 axes, |x|<9999"),
-    Clause("latex_shows_every_element_rounded", c_latex_elements, faithful_requests(1), 3500, 140000,
+    Clause("latex_shows_every_element_rounded", c_latex_elements, faithful_requests(1), 3500, 80000,
            doc="(4) LaTeX mode, 2-D matrices, |x|<9999"),
     ]
 
